@@ -212,6 +212,8 @@ def model(prog, chunk_lens, executable, trivially_unreachable, module_symbols):
         fb["kind"] = "data" if is_data else "code"
         if is_data:
             edges = {e for e in edges if not (e[0] == k and e[1] == "Fallthrough")}
+    if trailing:
+        trailing_reached = any(e[2] == "trailing" for e in edges)
     return final, edges, trailing, trailing_reached, total
 
 
@@ -507,6 +509,32 @@ PROGRAMS = {
 }
 
 
+def generated_programs():
+    """Every sequence of three instructions/directives from the vocabulary, with a label in front, labels between and at
+    the end, and transfer targets cycling over own labels, a module function and an external symbol (thorough tier)."""
+    import itertools
+    kinds = ["o", "jmp", "jcc", "call", "ret", "icall", "ijmp", "byte", "word"]
+    targets = ["l0", "end", "ext", "func", "l1"]
+    out = {}
+    n = 0
+    for combo in itertools.product(kinds, repeat=3):
+        prog = [tok("label", "l0")]
+        for i, k in enumerate(combo):
+            if i == 1:
+                prog.append(tok("label", "l1"))
+            if k in ("jmp", "jcc", "call"):
+                prog.append(tok(k, targets[n % len(targets)]))
+                n += 1
+            elif k == "word":
+                prog.append(tok(k, ["obj", "l0", "ext"][n % 3]))
+                n += 1
+            else:
+                prog.append(tok(k))
+        prog.append(tok("label", "end"))
+        out["gen-" + "-".join(combo)] = prog
+    return out
+
+
 def classify(rec):
     return "violation"
 
@@ -516,6 +544,12 @@ def make_check_C12(tier):
     chk.install_shims = install
     chk.classify_exception = classify
     targets = ["x64-intel", "x64-att", "arm64"] if tier == "quick" else list(TARGETS)
+    if tier == "thorough":
+        for target in ("x64-intel", "arm64"):
+            for pname, prog in generated_programs().items():
+                for tu in (False, True):
+                    chk.add("asm/%s/%s/pie/%s" % (target, pname, "unreach" if tu else "reach"), h_assemble,
+                            params=dict(target=target, prog=prog, pie=True, trivially_unreachable=tu), timeout=900)
     for target in targets:
         for pname, prog in PROGRAMS.items():
             if target == "arm64" and pname in ("lea-word",):
